@@ -481,6 +481,16 @@ theorem parentsSimilarity_eq (ps qs : List Fam) (o : SimOpts) :
 
 /-! ### individuals -/
 
+/-- a name of which something is left after trimming scores 1 against itself -/
+theorem stringSimilarity_self' (a : Str) (boost : Rat) (p : Nat) (h : Gedcom.cleanSpace a ≠ []) :
+    stringSimilarity a a boost p = 1 := by
+  unfold stringSimilarity comparedNames
+  by_cases hc : cleanName a = []
+  · simp only [hc, and_self, if_true]
+    exact jaroWinkler_self' _ boost p h
+  · simp only [hc, and_self, if_false]
+    exact jaroWinkler_self' _ boost p hc
+
 theorem stringSimilarity_bounds' (a b : Str) (boost : Rat) (p : Nat) (hp : p ≤ 10) :
     0 ≤ stringSimilarity a b boost p ∧ stringSimilarity a b boost p ≤ 1 :=
   jaroWinkler_bounds' _ _ _ _ hp
@@ -529,7 +539,7 @@ theorem dateSimilarity_same (r : DateR) (m : Rat) : dateSimilarity (some r) (som
   simp [dateSimilarity, rangeSimilarity, yearsSimilarity_self']
 
 theorem indiSimilarity_self (x : Indi) (o : SimOpts) (hp : o.jaroPrefixSize ≤ 10)
-    (n : Str) (hn : n ∈ x.names) (hne : cleanName n ≠ [])
+    (n : Str) (hn : n ∈ x.names) (hne : Gedcom.cleanSpace n ≠ [])
     (b d : DateR) (hb : x.birth = some b) (hd : x.death = some d) :
     indiSimilarity x x o = 1 := by
   unfold indiSimilarity
@@ -539,7 +549,7 @@ theorem indiSimilarity_self (x : Indi) (o : SimOpts) (hp : o.jaroPrefixSize ≤ 
     rw [nameSimilarity_eq]
     have := foldMax2_ge_mem (fun n m => stringSimilarity n m o.jaroBoostThreshold o.jaroPrefixSize)
       0 x.names x.names n n hn hn
-    simp only [stringSimilarity, jaroWinkler_self' _ _ _ hne] at this
+    rw [stringSimilarity_self' n _ _ hne] at this
     exact this
   rw [h1, hb, hd, dateSimilarity_same, dateSimilarity_same]
   grind
